@@ -122,7 +122,25 @@ def rec_rule(ctx, f, cfg):
     for b in f.all_bodies("zvariant"):
         for c in mir.calls(b):
             if "ContainerDepths::inc_" in c.callee:
-                incs.setdefault(b.d.get("impl_adt"), set()).add(b.name)
+                # ContainerDepths is Copy and inc_* takes it by value: the increment only counts if its result is kept
+                # (stored into a `container_depths` place or used to build the child (de)serializer)
+                der = mir.derives(b, {c.dest[0]})
+                kept = False
+                for bi, i, pl, rv, ln in mir.assignments(b):
+                    uses = any(l in der for op in mir.rvalue_operands(rv) for l in mir.operand_locals(op))
+                    if not uses:
+                        continue
+                    if "container_depths" in mir.place_fields(pl):
+                        kept = True
+                    if rv[0] == "agg" and rv[1] == "adt" and "container_depths" in (rv[5] if len(rv) > 5 and rv[5] else []):
+                        idx = rv[5].index("container_depths")
+                        if any(l in der for l in mir.operand_locals(rv[4][idx])):
+                            kept = True
+                ctx.ob("P-REC", "%s:%s::%s:%s-result-kept" % (cfg, b.d.get("impl_adt"), b.name, c.callee.rsplit("::", 1)[-1]), kept,
+                       "the incremented depth is stored / handed to the child" if kept else
+                       "the result of %s is discarded (ContainerDepths is Copy): the depth never grows, nesting is unbounded" % c.callee.rsplit("::", 1)[-1], c.where)
+                if kept:
+                    incs.setdefault(b.d.get("impl_adt"), set()).add(b.name)
     n = 0
     seen = set()
     for b in f.all_bodies("zvariant"):
